@@ -269,7 +269,7 @@ Section Plain.
     unfold succs, step_reqs. split.
     - intros H. destruct (snd m) eqn:E; simpl in H; try tauto;
         (split; [congruence|]); destruct (required m) as [l|]; simpl in H; try tauto; eauto.
-    - intros (H1 & l & H2 & H3). rewrite H2. destruct (snd m); simpl; auto. congruence.
+    - intros (H1 & l & H2 & H3). rewrite H2. destruct (snd m); simpl; auto; congruence.
   Qed.
 
   Lemma bad_plain m : bad required None m = true <-> (snd m <> VNone /\ required m = None).
@@ -277,7 +277,7 @@ Section Plain.
     unfold bad, step_reqs. split.
     - intros H. destruct (snd m) eqn:E; simpl in H; try discriminate;
         (split; [congruence|]); destruct (required m); simpl in H; auto; discriminate.
-    - intros (H1 & H2). rewrite H2. destruct (snd m); simpl; auto. congruence.
+    - intros (H1 & H2). rewrite H2. destruct (snd m); simpl; auto; congruence.
   Qed.
 
   Lemma greach_reachable t n : greach required None t n <-> reachable required t n.
@@ -301,7 +301,7 @@ Proof.
 Qed.
 
 (** ** the universe: every reachable node is listed in [u_nodes] *)
-Lemma find_sum_In sums k r s : find_sum sums k r = Some s -> exists e, In e sums /\ snd e = s.
+Lemma find_sum_In sums k r sm : find_sum sums k r = Some sm -> exists e, In e sums /\ snd e = sm.
 Proof.
   induction sums as [|[[k' r'] s'] sums IH]; simpl; [discriminate|].
   destruct (str_eqb k' k && (r' =? r)).
@@ -311,13 +311,13 @@ Qed.
 
 Lemma u_required_in U rr m l n : u_required U rr m = Some l -> In n l -> In n (rr ++ all_reqs U).
 Proof.
-  unfold u_required. intros H Hn. apply in_app_iff. destruct (fst m).
+  unfold u_required. intros H Hn. apply in_app_iff. destruct (fst m) as [|c0 p0].
   - inversion H; subst; auto.
-  - destruct (resolve_project U m) as [s|] eqn:E; [|discriminate]. inversion H; subst.
+  - destruct (resolve_project U m) as [sm|] eqn:E; [|discriminate]. inversion H; subst.
     right. unfold resolve_project in E. destruct (negb _); [discriminate|].
     destruct (match pseudo_seg_of (snd m) with Some seg => _ | None => _ end); [|discriminate].
     apply find_sum_In in E. destruct E as (e & E1 & E2). unfold all_reqs. apply in_flat_map.
-    exists e. subst s. auto.
+    exists e. subst sm. auto.
 Qed.
 
 Lemma reachable_in_nodes U rr n : reachable_from U rr n -> In n (u_nodes U rr).
@@ -329,7 +329,7 @@ Lemma reachable_same_set U rr1 rr2 n :
   same_set rr1 rr2 -> reachable_from U rr1 n -> reachable_from U rr2 n.
 Proof.
   intros SS. unfold reachable_from. induction 1; [constructor|].
-  unfold u_required in H1. destruct (fst m) eqn:E.
+  unfold u_required in H1. destruct (fst m) as [|c0 p0] eqn:E.
   - inversion H1; subst. eapply (r_dep _ _ m n rr2); eauto.
     + unfold u_required. now rewrite E.
     + now apply SS.
@@ -341,7 +341,7 @@ Lemma unresolvable_same_set U rr1 rr2 :
 Proof.
   intros SS (m & M1 & M2 & M3). exists m. repeat split; auto.
   - eapply reachable_same_set; eauto.
-  - unfold u_required in *. destruct (fst m); auto. discriminate.
+  - unfold u_required in *. destruct (fst m) as [|c0 p0]; auto. discriminate.
 Qed.
 
 Lemma same_set_sym a b : same_set a b -> same_set b a.
@@ -365,7 +365,7 @@ Proof.
   - right. exists (target :: l). unfold dawn_build_list, build_list. fold rr. rewrite E.
     assert (S' : mvs_solution (reachable_from U rr) (target :: l)).
     { eapply mvs_solution_ext; [|exact S]. intros n. apply greach_reachable. }
-    repeat split; try apply S'.
+    split; [|split; [exact S'|]].
     + f_equal. apply to_map_sorted. apply S'.
     + intros (m & M1 & M2 & M3). apply greach_reachable in M1.
       assert (bad (u_required U rr) None m = true) by (apply bad_plain; auto).
@@ -396,7 +396,7 @@ Proof.
   - congruence.
   - exfalso. apply H2. eapply unresolvable_same_set; eauto.
   - exfalso. apply H1. eapply unresolvable_same_set; eauto. now apply same_set_sym.
-  - rewrite E1, E2. f_equal. eapply mvs_solution_unique; eauto.
+  - rewrite E1, E2. f_equal. apply (mvs_solution_unique (reachable_from U (map snd root2))); auto.
     eapply mvs_solution_ext; [|exact S1]. intros n; split; apply reachable_same_set; auto. now apply same_set_sym.
 Qed.
 
